@@ -1482,7 +1482,9 @@ impl<T: Clone> Matrix<T> {
             "Column to insert must be <= to {}",
             self.columns()
         );
-        let mut array_values = values.collect::<Vec<T>>();
+        // only the first self.rows() values fill the new column, in sequence; any further
+        // values the iterator could provide are not used
+        let mut array_values = values.take(self.rows()).collect::<Vec<T>>();
         assert!(
             array_values.len() >= self.rows(),
             "At least {} values must be provided",
